@@ -243,7 +243,34 @@ func calleeShortName(c *ssa.CallCommon) string {
 // ---------------------------------------------------------------------------
 // obligations
 
-func (fe *FnExec) oblName(kind string) string { return shortFn(fe.Fn.String()) + "/" + kind }
+func (fe *FnExec) oblName(kind string) string {
+	if fe.Fn == nil {
+		return fe.name + "/" + kind
+	}
+	return shortFn(fe.Fn.String()) + "/" + kind
+}
+
+// verifyLemma discharges a closed contract-level lemma (no code involved).
+func verifyLemma(p *Program, l LemmaDecl, emit func(*Obligation)) []string {
+	fe := &FnExec{P: p, C: &FuncContract{}, preludeSet: map[string]bool{}, initHeap: map[string]Term{}, emit: emit,
+		strLits: map[string]Term{}, typeCodes: map[string]int{}, name: "lemma " + l.Name}
+	st := &State{fe: fe, heap: map[string]Term{}, locals: nil, binds: map[string]Binding{}, facts: map[string]bool{}, callCnt: map[string]int{}, callLog: map[string]callRec{}}
+	fe.addPrelude("now0", "(declare-const now0 Int)")
+	st.now = Term{"now0", SInt}
+	env := &Env{fe: fe, st: st, vars: map[string]Binding{}, pkg: l.Pkg, qn: &fe.qn}
+	t, err := env.evalBool(l.E)
+	if err != nil {
+		return []string{"lemma " + l.Name + ": " + err.Error()}
+	}
+	tags := l.Tags
+	if len(tags) == 0 {
+		tags = []string{"support"}
+	}
+	hdr := "lemma " + l.Name + ": " + l.Text
+	fe.nObl++
+	emit(&Obligation{Func: "lemma " + l.Name, Name: "lemma " + l.Name, Kind: "lemma", Tags: tags, Text: l.Text, Query: fe.buildQuery(st, t, false, hdr)})
+	return nil
+}
 
 func (fe *FnExec) assert(st *State, goal Term, name, kind string, tags []string, text string, pos token.Pos) {
 	if st.dead {
